@@ -12,6 +12,9 @@ def run(ctx):
     e = build.ensure_explorer("arc_explore", "asan")
     ctx.run_space(e, "integrity", ["seeds=%d" % (1000 if ctx.thorough else 24)], cpu_limit=60)
     ctx.run_space(e, "sweeps", cpu_limit=60)
+    # the largest amounts a decoding step can produce (output buffers of the decoders), through the decoder explorer of C04
+    dp = build.ensure_explorer("dec_pm", "asan")
+    ctx.run_space(dp, "pm1-maxout", cpu_limit=60)
     try:
         from props import cli_c08
         cli_c08.run(ctx)
